@@ -74,6 +74,9 @@ func mapOpenAPITypeAndFormatToType(typeName, format string, logger *logrus.Logge
 			OpenAPIFormat_DOUBLE: syslutil.Type_FLOAT,
 			OpenAPIFormat_FLOAT:  syslutil.Type_FLOAT,
 		},
+		OpenAPI_BOOLEAN: {
+			"": syslutil.Type_BOOL,
+		},
 	}
 
 	if formatMap, ok := conversions[typeName]; ok {
